@@ -25,6 +25,8 @@ def dispatch (op : String) : Option (P Verdict) :=
   | "wavg" => some Drv.Wts.runWavg
   | "lines" => some Drv.Lab.runLines
   | "forms" => some Drv.Lab.runForms
+  | "det" => some Drv.Det.runDet
+  | "hist" => some Drv.Det.runHist
   | "thr" => some Drv.Eng.runThr
   | "ht" => some Drv.Eng.runHt
   | "vol" => some Drv.Eng.runVol
